@@ -174,9 +174,17 @@ func verifRunC19(c *verifsim.Ctx) {
 		return verifMustSign(c, k, t, h, body)
 	}
 	acct := mk(root, asserts.AccountType, map[string]interface{}{"authority-id": "canonical", "account-id": "canonical", "display-name": "Canonical", "validation": "verified", "timestamp": verifRFC(since)}, nil)
-	akRoot := mk(root, asserts.AccountKeyType, map[string]interface{}{"authority-id": "canonical", "account-id": "canonical", "name": "root", "public-key-sha3-384": root.id, "since": verifRFC(since)}, root.pubEnc)
+	// the built-in assertions may be in a newer format than what is added later
+	builtinFormat := func(h map[string]interface{}, label string) map[string]interface{} {
+		if c.Draw(label, 2) == 1 {
+			h["format"] = "1"
+			c.Count("probe:builtin-in-format-1")
+		}
+		return h
+	}
+	akRoot := mk(root, asserts.AccountKeyType, builtinFormat(map[string]interface{}{"authority-id": "canonical", "account-id": "canonical", "name": "root", "public-key-sha3-384": root.id, "since": verifRFC(since)}, "trusted-key-format"), root.pubEnc)
 	akStore := mk(root, asserts.AccountKeyType, map[string]interface{}{"authority-id": "canonical", "account-id": "canonical", "name": "store", "public-key-sha3-384": store.id, "since": verifRFC(since)}, store.pubEnc)
-	predefT := mk(store, asserts.TestOnlyType, map[string]interface{}{"authority-id": "canonical", "primary-key": "predef", "revision": "2", "tag": "t0"}, nil)
+	predefT := mk(store, asserts.TestOnlyType, builtinFormat(map[string]interface{}{"authority-id": "canonical", "primary-key": "predef", "revision": "2", "tag": "t0"}, "predefined-format"), nil)
 	predefA := mk(root, asserts.AccountType, map[string]interface{}{"authority-id": "canonical", "account-id": "predef-acct", "display-name": "Predefined", "validation": "verified", "timestamp": verifRFC(since), "revision": "1"}, nil)
 	trusted := []asserts.Assertion{acct, akRoot}
 	predefined := []asserts.Assertion{predefT, predefA}
@@ -536,9 +544,17 @@ func (w *verifC19) opClash() {
 	case 0:
 		a = verifMustSign(c, root, asserts.AccountType, map[string]interface{}{"authority-id": "canonical", "account-id": "canonical", "display-name": "Canonical 2", "validation": "verified", "timestamp": verifRFC(since), "revision": rev}, nil)
 	case 1:
-		a = verifMustSign(c, root, asserts.AccountKeyType, map[string]interface{}{"authority-id": "canonical", "account-id": "canonical", "name": "root", "public-key-sha3-384": root.id, "since": verifRFC(since), "revision": rev}, root.pubEnc)
+		h := map[string]interface{}{"authority-id": "canonical", "account-id": "canonical", "name": "root", "public-key-sha3-384": root.id, "since": verifRFC(since), "revision": rev}
+		if c.Draw("clash-format", 2) == 1 {
+			h["format"] = "1"
+		}
+		a = verifMustSign(c, root, asserts.AccountKeyType, h, root.pubEnc)
 	case 2:
-		a = verifMustSign(c, store, asserts.TestOnlyType, map[string]interface{}{"authority-id": "canonical", "primary-key": "predef", "revision": rev, "tag": "t1"}, nil)
+		h := map[string]interface{}{"authority-id": "canonical", "primary-key": "predef", "revision": rev, "tag": "t1"}
+		if c.Draw("clash-format", 2) == 1 {
+			h["format"] = "1"
+		}
+		a = verifMustSign(c, store, asserts.TestOnlyType, h, nil)
 	case 3:
 		a = verifMustSign(c, root, asserts.AccountType, map[string]interface{}{"authority-id": "canonical", "account-id": "predef-acct", "display-name": "Predefined 2", "validation": "verified", "timestamp": verifRFC(since), "revision": rev}, nil)
 	}
@@ -890,4 +906,4 @@ func (w *verifC19) audit(why string) {
 	w.c.Logf("audit (%s): %d identities", why, len(ids))
 }
 
-var verifProbesC19 = []string{"probe:stacked-two-or-more-levels", "probe:revision-moved-forward-above-a-lower-level", "probe:stale-add-with-current-revision-two-or-more-levels-down", "probe:stale-add-with-current-revision-one-level-down", "probe:find-sequence-over-numbers-of-different-length", "probe:clash-refused", "probe:dot-primary-key-stored", "probe:find-absent", "probe:find-many-several-results", "probe:find-sequence-hit", "probe:find-sequence-skips-member-of-higher-format", "probe:identity-stored-in-several-formats", "probe:max-format-hides-higher-revision", "probe:optional-primary-key-non-default", "probe:restart-with-stored-assertions", "probe:revision-error-on-stale-add", "probe:revision-moved-forward"}
+var verifProbesC19 = []string{"probe:stacked-two-or-more-levels", "probe:revision-moved-forward-above-a-lower-level", "probe:stale-add-with-current-revision-two-or-more-levels-down", "probe:stale-add-with-current-revision-one-level-down", "probe:find-sequence-over-numbers-of-different-length", "probe:clash-refused", "probe:builtin-in-format-1", "probe:dot-primary-key-stored", "probe:find-absent", "probe:find-many-several-results", "probe:find-sequence-hit", "probe:find-sequence-skips-member-of-higher-format", "probe:identity-stored-in-several-formats", "probe:max-format-hides-higher-revision", "probe:optional-primary-key-non-default", "probe:restart-with-stored-assertions", "probe:revision-error-on-stale-add", "probe:revision-moved-forward"}
